@@ -12,6 +12,7 @@ from datetime import datetime, timezone
 
 from cryptography.hazmat.primitives import constant_time
 from cryptography.hazmat.primitives.asymmetric import padding
+from cryptography.hazmat.primitives.keywrap import InvalidUnwrap
 
 from .fields import DSAPriv, DSAPub, DSASignature
 from .fields import ECDSAPub, ECDSAPriv, ECDSASignature
@@ -224,7 +225,13 @@ class PKESessionKeyV3(PKESessionKey):
         else:
             raise NotImplementedError(self.pkalg)
 
-        m = bytearray(self.ct.decrypt(decrypter, *decargs))
+        try:
+            m = bytearray(self.ct.decrypt(decrypter, *decargs))
+
+        except (ValueError, InvalidUnwrap):
+            # a damaged ciphertext: bad PKCS#1 padding, an ephemeral point that is not on the curve,
+            # or a wrapped key that fails its integrity check or is badly padded
+            raise PGPDecryptionError("{:s} decryption failed".format(self.pkalg.name))
 
         """
         The value "m" in the above formulas is derived from the session key
@@ -239,16 +246,23 @@ class PKESessionKeyV3(PKESessionKey):
         this document for notes on OpenPGP's use of PKCS#1.
         """
 
-        symalg = SymmetricKeyAlgorithm(m[0])
+        try:
+            symalg = SymmetricKeyAlgorithm(m[0])
+            keylen = symalg.key_size // 8
+
+        except (IndexError, ValueError, NotImplementedError):
+            # what came out is empty or does not start with a cipher that has a key: not a session key
+            raise PGPDecryptionError("{:s} decryption failed".format(self.pkalg.name))
+
         del m[0]
 
-        symkey = m[:symalg.key_size // 8]
-        del m[:symalg.key_size // 8]
+        symkey = m[:keylen]
+        del m[:keylen]
 
         checksum = self.bytes_to_int(m[:2])
         del m[:2]
 
-        if not sum(symkey) % 65536 == checksum:  # pragma: no cover
+        if len(symkey) != keylen or not sum(symkey) % 65536 == checksum:  # pragma: no cover
             raise PGPDecryptionError("{:s} decryption failed".format(self.pkalg.name))
 
         return (symalg, symkey)
